@@ -81,3 +81,80 @@ def pd_concat(eng, recv, args, node):
 
 
 REG.dep_classes['module:pd'] = {'DataFrame': pd_DataFrame, 'concat': pd_concat}
+
+
+# ---- numpy.random (assumed) ---------------------------------------------------------------------------------------------------
+# default_rng(seed) is a pure function of seed; default_rng() without a seed is NOT a function of program state.
+REG.entities['Rng'] = dict(seed='any', seeded='bool')
+REG.entities['NpArr'] = dict()
+NP_LEN = z3.Function('np_len', I, I)
+NP_AT = z3.Function('np_at', I, I, R)
+NP_RANDOM = z3.Function('np_random', I, R)                 # first .random() of default_rng(seed)
+NP_NORMAL = z3.Function('np_normal', I, R, R, I, I)        # array id of default_rng(seed).normal(mu, sigma, n)
+NP_POISSON = z3.Function('np_poisson', I, R, I, I)
+NP_FILTER_GT = z3.Function('np_filter_gt', I, R, I)        # a[a > x]
+
+
+def note_nondet(eng, term, what):
+    eng.st.ghost.setdefault('_nondet', []).append((term, what))
+
+
+def np_default_rng(eng, args, node):
+    r = Sym('ref', z3.Int(fresh_name('rng')), 'Rng')
+    eng.st.assume(r.t > 0)
+    if args:
+        eng.heap_write(r, 'seed', args[0])
+        eng.heap_write(r, 'seeded', True)
+    else:
+        fresh = Sym('any', z3.Int(fresh_name('entropy')))
+        note_nondet(eng, fresh.t, f"default_rng() without a seed at line {getattr(node, 'lineno', '?')}")
+        eng.heap_write(r, 'seed', fresh)
+        eng.heap_write(r, 'seeded', False)
+    return r
+
+
+def _seed(eng, rng):
+    return eng.heap_read(rng, 'seed').t
+
+
+def rng_random(eng, recv, args, node):
+    v = NP_RANDOM(_seed(eng, recv))
+    eng.st.assume(z3.And(v >= 0, v < 1))
+    return Sym('num', v)
+
+
+def _arr(eng, aid, n):
+    a = Sym('ref', aid, 'NpArr')
+    eng.st.assume(z3.And(aid > 0, NP_LEN(aid) == n, n >= 0))
+    return a
+
+
+def rng_normal(eng, recv, args, node):
+    mu, sigma, n = eng.num(args[0]), eng.num(args[1]), z3.ToInt(eng.num(args[2]))
+    eng.check_or_raise(sigma >= 0, 'ValueError', node, 'normal(): scale < 0')
+    aid = NP_NORMAL(_seed(eng, recv), mu, sigma, n)
+    i = z3.Int(fresh_name('ni'))
+    eng.st.assume(z3.Implies(sigma == 0, z3.ForAll([i], NP_AT(aid, i) == mu)))
+    return _arr(eng, aid, z3.If(n >= 0, n, 0))
+
+
+def rng_poisson(eng, recv, args, node):
+    lam, n = eng.num(args[0]), z3.ToInt(eng.num(args[1]))
+    eng.check_or_raise(lam >= 0, 'ValueError', node, 'poisson(): lam < 0')
+    eng.check_or_raise(n >= 0, 'ValueError', node, 'poisson(): negative size')
+    aid = NP_POISSON(_seed(eng, recv), lam, n)
+    i = z3.Int(fresh_name('pi'))
+    eng.st.assume(z3.Implies(lam == 0, z3.ForAll([i], NP_AT(aid, i) == 0)))
+    return _arr(eng, aid, n)
+
+
+def rng_uniform(eng, recv, args, node):
+    if not args:
+        v = Sym('num', z3.Function('np_uniform', I, R)(_seed(eng, recv)))     # a float scalar
+        return v
+    raise Exception('uniform(size) not modelled')
+
+
+REG.dep_classes['Rng'] = {'random': rng_random, 'normal': rng_normal, 'poisson': rng_poisson, 'uniform': rng_uniform}
+
+REG.value_classes = {'Rng', 'NpArr'}      # freshly created value objects: their fields are not part of any frame
